@@ -103,7 +103,7 @@ CHECKS = {
         "category": "proof",
         "text": "Verus proves, for every term value at every nesting depth, that write_term / write_triple (real function text, extracted each run) write exactly the N-Triples term syntax fmt_term(t) - <iri>, _:label, \"esc(lex)\" with @tag or ^^<dt> iff the datatype is not xsd:string, << s p o >> - and for all byte strings that quoted_string writes exactly esc(lexical form); lemmas over esc give unesc(esc(s)) == s, one statement per line, image inside the W3C STRING_LITERAL_QUOTE body, UTF-8 preserved.",
         "design_ref": "DESIGN.md 4.5, 5 (C03)",
-        "note": "Trusted: Verus/z3, write_all contract, byte-literal axioms L1 (cross-checked by the rustc guard), rewrites R1/R3/R4 (R1/R4 guarded differentially), Rio parser conformance to the W3C grammar; term framing is bounded (Kani, 1-byte components), statement framing is a labelled bounded native stand-in (1620 quads through the real serializers and parsers).",
+        "note": "Trusted: Verus/z3, write_all contract, byte-literal axioms L1 (cross-checked by the rustc guard), rewrites R1/R3/R4 (R1/R4 guarded differentially), Rio parser conformance to the W3C grammar; term framing is bounded (Kani, 1-byte components), statement framing is a labelled bounded native stand-in (1710 quads through the real serializers and parsers).",
         "technique": "deductive verification (Verus pre/postconditions, loop invariants, lemmas) of mechanically extracted code",
     },
 }
